@@ -1240,3 +1240,103 @@ func init() {
 		})
 	})
 }
+
+func init() {
+	extraFunctions = append(extraFunctions, func(p *Pkg) {
+		nameOf := func(in *Interp, v *V) (string, *Err) {
+			if v.K != KSym && v.K != KStr {
+				return "", in.errf("type")
+			}
+			return v.S, nil
+		}
+		defFn(p, "in-package", 1, -1, func(in *Interp, a []*V) (*V, *Err) {
+			n, e := nameOf(in, a[0])
+			if e != nil {
+				return nil, e
+			}
+			pk := in.Pkgs[n]
+			if pk == nil {
+				pk = in.newPackage(n)
+			}
+			in.Cur = pk
+			for _, d := range a[1:] {
+				if d.K != KStr {
+					return nil, in.errf("type")
+				}
+			}
+			return Nil(), nil
+		})
+		defFn(p, "use-package", 0, -1, func(in *Interp, a []*V) (*V, *Err) {
+			for _, x := range a {
+				n, e := nameOf(in, x)
+				if e != nil {
+					return nil, e
+				}
+				src := in.Pkgs[n]
+				if src == nil {
+					return nil, in.errf("unknown-package")
+				}
+				// exactly the exported bindings, as they are at this moment
+				names := append([]string(nil), src.Exports...)
+				sort.Strings(names)
+				for _, s := range names {
+					v, ok := src.Syms[s]
+					if !ok {
+						if s == "true" || s == "false" {
+							continue
+						}
+						return nil, in.errf("use-package-unbound-export")
+					}
+					if s == "true" || s == "false" {
+						continue
+					}
+					in.Cur.Syms[s] = v
+				}
+			}
+			return Nil(), nil
+		})
+		var export func(in *Interp, a []*V) *Err
+		export = func(in *Interp, a []*V) *Err {
+			for _, x := range a {
+				switch x.K {
+				case KSym, KStr:
+					in.Cur.export(x.S)
+				case KList:
+					// nested lists are accepted; an error inside is ignored by the real builtin
+					_ = export(in, x.L)
+				default:
+					return in.errf("type")
+				}
+			}
+			return nil
+		}
+		defFn(p, "export", 0, -1, func(in *Interp, a []*V) (*V, *Err) {
+			if e := export(in, a); e != nil {
+				return nil, e
+			}
+			return Nil(), nil
+		})
+		defFn(p, "load-string", 1, 3, func(in *Interp, a []*V) (*V, *Err) {
+			if a[0].K != KStr {
+				return nil, in.errf("type")
+			}
+			if len(a) == 2 {
+				return nil, in.errf("arity-key-odd")
+			}
+			if a[0].Src == nil || a[0].Src.Prog == nil {
+				return nil, in.unsure("load-string of a computed string")
+			}
+			saved := in.Cur
+			defer func() { in.Cur = saved }()
+			var r *V = Nil()
+			for _, f := range a[0].Src.Prog {
+				x, e := in.Eval(in.Root, FromSX(f))
+				if e != nil {
+					return nil, e
+				}
+				r = x
+			}
+			return r, nil
+		})
+	})
+}
